@@ -212,6 +212,13 @@ func initVerifAPI() {
 			in.path.recursionLimit = int(n)
 			return nil
 		},
+		// verifCondSignals(): number of sync.Cond Signal/Broadcast calls so far on this path (ghost)
+		"verifCondSignals": func(fr *frame, a []value) value {
+			return fr.in.int64v(int64(fr.in.path.condSignals))
+		},
+		"verifCondBroadcasts": func(fr *frame, a []value) value {
+			return fr.in.int64v(int64(fr.in.path.condBroadcasts))
+		},
 		"verifOnCondWait": func(fr *frame, a []value) value {
 			fr.in.path.condWaitHook = a[0]
 			return nil
